@@ -289,11 +289,11 @@ class DimwiseSim:
     def error_operator(self):
         return self.err
 
-    def cont(self, tol=-1.0, max_evaluations=None, min_evaluations=1, stop_after=None):
+    def cont(self, tol=-1.0, max_evaluations=None, min_evaluations=1, stop_after=None, **kw):
         self.stop_after = stop_after
         _Obs.cur = self
         try:
-            self.last_ret = self.sa.continue_adaptive_refinement(tol=tol, max_evaluations=max_evaluations, min_evaluations=min_evaluations)
+            self.last_ret = self.sa.continue_adaptive_refinement(tol=tol, max_evaluations=max_evaluations, min_evaluations=min_evaluations, **kw)
             return self.last_ret
         except AssertionError as e:
             self._resolution(e)
